@@ -48,11 +48,14 @@ def one_image(rec, rnd, deep, override=None):
             if fmt in SIZED and e['pos'] < known_at and e['vs'] != '0':
                 problems.append(('nonzero-while-unknown', e, known_at))
                 break
-        if r['err'] is None and ref['safety'] != 'rejected' or (r['err'] is None and ref['size']['k'] != 'zero'):
-            if final != want:
+        if ref['size']['k'] != 'zero' or override:
+            # the layout declares a size that a complete presentation must report
+            if r['err'] is not None:
+                problems.append(('raised-on-sized-image', r['err'] + ': ' + str(r['err_msg']), want))
+            elif final != want:
                 problems.append(('final', final, want))
-        elif r['err'] is None and isinstance(final, str):
-            problems.append(('accessor-exception', final, want))
+        elif r['err'] is None and final != 0:
+            problems.append(('final', final, 0))
         tr = {'fmt': fmt, 'carrier': known_at, 'declared': str(want), 'lenbased': False, 'ev': ev}
         out.append((tr, problems, ri.describe(sched)))
     return out
@@ -111,7 +114,7 @@ def run(ctx):
     # B. real scale
     records = ri.export_layouts(ctx)
     rnd = random.Random(ctx.seed)
-    caps = {'gpt': 40, 'qcow2': 150, 'vmdk': 200 if quick else 900, 'vhdx': 200 if quick else 900,
+    caps = {'gpt': 40, 'qcow2': 150, 'vmdk': 220 if quick else 900, 'vhdx': 900,
             '*': 200 if quick else 2000}
     chosen = ri.select(records, caps, rnd, always=lambda rec: rec['clean'] and rec['L']['fmt'] in SIZED
                        and rec['L'].get('size', '10G') != '10G')
